@@ -87,6 +87,18 @@ def parse_forms(text: str, all_splits: bool):
     if all_splits:
         for i in range(1, len(text)):
             yield f'split@{i}', [text[:i], text[i:]]
+        # a real OS-level text file whose .name is a file descriptor number, not a path (tempfile.TemporaryFile, os.fdopen);
+        # for the smallest documents only (one OS file per text)
+        import tempfile
+        tf = tempfile.TemporaryFile('w+', encoding='utf8', newline='', dir='/dev/shm', errors='surrogatepass')
+        try:
+            tf.write(text)
+            tf.seek(0)
+            yield 'unnamed_os_file', tf
+        except UnicodeEncodeError:
+            pass
+        finally:
+            tf.close()
 
 
 def check_doc(acc: core.Acc, specs: list, configs: list, all_splits: bool, sig: dict, single_block_root: bool = False) -> None:
@@ -102,7 +114,7 @@ def check_doc(acc: core.Acc, specs: list, configs: list, all_splits: bool, sig: 
     before = dump(tree)
     ids_before = identities(tree, [])
     texts = []
-    for cfg in list(configs) + ['export()', 'str()', 'serialise(file)', 'serialize()']:
+    for cfg in list(configs) + ['export()', 'str()', 'serialise(file)', 'serialise(list-like sink)', 'serialize()']:
         acc.evaluations += 1
         try:
             if cfg == 'export()':
@@ -118,6 +130,15 @@ def check_doc(acc: core.Acc, specs: list, configs: list, all_splits: bool, sig: 
                     acc.fail('serialise_file_form', case, f'serialise(file) returned {res!r} / file now {text[:60]!r}', **sig)
                     return
                 text = text[len('"earlier" "content"\n'):]
+            elif cfg == 'serialise(list-like sink)':
+                class Pieces(list):          # a write()-only sink that is falsy while empty
+                    write = list.append
+                sink = Pieces()
+                res = tree.serialise(sink)
+                text = ''.join(sink)
+                if res is not None:
+                    acc.fail('serialise_file_form', case, f'serialise(sink) returned {str(res)[:60]!r} instead of writing to the sink', **sig)
+                    return
             elif cfg == 'serialize()':
                 text = tree.serialize()
             else:
@@ -144,7 +165,8 @@ def check_doc(acc: core.Acc, specs: list, configs: list, all_splits: bool, sig: 
         for form, data in parse_forms(text, all_splits):
             acc.evaluations += 1
             try:
-                got = dump(Keyvalues.parse(data, 'f'))
+                # file objects are parsed without a file name (the name is then taken from the object, if it has one)
+                got = dump(Keyvalues.parse(data) if form in ('file', 'file_after_header', 'unnamed_os_file') else Keyvalues.parse(data, 'f'))
             except KeyValError as exc:
                 acc.fail('reparse_error', case, f'tree {want}\n serialised ({cfg}) as {text!r}\n parse[{form}] raised: {exc.mess}', **sig)
                 return
@@ -191,6 +213,41 @@ ROLES = {
     'block_name': lambda s: ('B', s, [('L', 'in', '1')]),
     'empty_block_name': lambda s: ('B', s, []),
 }
+
+
+def check_deep(acc: core.Acc, depth: int) -> None:
+    """A chain of `depth` nested blocks with one leaf at the bottom ("any depth"); built, serialised, parsed and compared without
+    recursion in the harness, under the interpreter's default recursion limit."""
+    acc.evaluations += 1
+    acc.nontrivial += 1
+    case = {'deep': depth}
+    node = Keyvalues('leaf', 'v')
+    for i in range(depth):
+        node = Keyvalues(f'b{i % 7}', [node])
+    root = Keyvalues.root(node)
+    try:
+        text = root.serialise()
+        back = Keyvalues.parse(text)
+    except RecursionError as exc:
+        acc.fail('depth_limit', case, f'a chain of {depth} nested blocks: {type(exc).__name__} ({str(exc)[:80]})', gen='deep')
+        return
+    except Exception as exc:  # noqa: BLE001
+        acc.fail('reparse_crash', case, f'a chain of {depth} nested blocks: {type(exc).__name__}: {str(exc)[:200]}', gen='deep')
+        return
+    a_, b_ = root, back
+    level = 0
+    while True:
+        ka, kb = list(a_._value) if isinstance(a_._value, list) else None, list(b_._value) if isinstance(b_._value, list) else None
+        if (a_._real_name, ka is None, None if ka is not None else a_._value) != (b_._real_name, kb is None, None if kb is not None else b_._value):
+            acc.fail('roundtrip_differs', case, f'chain of {depth} blocks differs at level {level}: {a_._real_name!r} vs {b_._real_name!r}', gen='deep')
+            return
+        if ka is None:
+            return
+        if len(ka) != 1 or len(kb) != 1:
+            acc.fail('roundtrip_differs', case, f'chain of {depth} blocks: level {level} has {len(kb)} children after the round trip', gen='deep')
+            return
+        a_, b_ = ka[0], kb[0]
+        level += 1
 
 
 def check_shared_blocks(acc: core.Acc) -> None:
@@ -292,6 +349,8 @@ def shard(spec) -> core.Acc:
     elif kind == 'extra':
         check_shared_blocks(acc)
         check_after_polluter(acc)
+        for depth in (50, 200, 400, 600, 800):
+            check_deep(acc, depth)
     elif kind == 'long':
         # long names / values (several KiB) holding one escapable character at the start, middle or end
         for n in (spec[1],):
@@ -371,13 +430,16 @@ def run(ctx: core.Ctx) -> None:
                 f'length <= {L} over a {len(SIGMA)}-character syntax alphabet (no CR/LF in names) in each of 4 roles inside a '
                 f'3-level context tree, and all (name, value) pairs of strings of length <= 2; (c) every Unicode scalar value '
                 f'alone and between two letters in each role ({"BMP in all roles, astral planes as leaf value" if ctx.quick else "all planes in all roles"}); each text re-parsed from str, file object, lines, characters '
-                f'(and every two-chunk split for the smallest documents); trees sharing one block object at several places; names and values of 1000..9000 characters with an escapable character at either end or in the middle; round trips '
+                f'(and every two-chunk split for the smallest documents); trees sharing one block object at several places; chains of 50..800 nested blocks; names and values of 1000..9000 characters with an escapable character at either end or in the middle; round trips '
                 f'preceded by an unrelated call (early-returning single_block parse, parse error, abandoned tokenizer). Non-trivial = every generated document (each is '
                 f'enumerated once).')
 
 
 def replay(case: dict) -> list:
     acc = core.Acc()
+    if 'deep' in case:
+        check_deep(acc, case['deep'])
+        return acc.all_failures()
     if 'shared' in case:
         check_shared_blocks(acc)
         return [f for f in acc.all_failures() if f.case.get('shared') == case['shared']]
